@@ -15,7 +15,7 @@ RULE = ("(A) random ODE / DAE models (vector and matrix states, controls, algebr
         "rk is exact on integrator chains): der applied j<=k times is sampled with refine; on every control interval the "
         "j-th signal must be the exact derivative of the polynomial fitted through the (j-1)-th, signals 0..k-1 are "
         "continuous across nodes, the k-th is the piecewise-constant decision; the (k+1)-th application and der of an "
-        "order-0 control must raise.  non-trivial = at least one comparison with a non-zero derivative; distinct = "
+        "order-0 control must raise.  (S) expressions of a state, a bspline variable or parameter (order 1..3) and time under MultipleShooting / DirectCollocation: der(e) sampled on the control grid must equal e_x f + e_w der(w) + e_t computed by CasADi AD on independent symbols from the sampled ingredients.  non-trivial = at least one comparison with a non-zero derivative; distinct = "
         "feature signature of the model/expression or (order, N, M, grid).")
 ASSUMPTIONS = ["finite differences with tolerance 1e-6 (relative)", "numpy evaluation of the declared right-hand side"]
 ANCHORS = ["stage:Stage.der", "stage:Stage.control"]
@@ -44,7 +44,93 @@ def gen_cases(rng, tier):
                       "grid": ocpgen.gen_grid(rng, ["uniform", "geometric", "function"], 3),
                       "t0": ocpgen.rnd(rng, -1, 1), "T": ocpgen.rnd(rng, 0.5, 3), "refine": rng.choice([4, 5, 6]),
                       "seed": rng.getrandbits(32)})
+    ns = 30 if tier == "quick" else 400
+    for i in range(ns):
+        cases.append({"kind": "S", "cls": rng.choice(["MS", "DC"]), "N": rng.choice([1, 2, 3, 4]), "M": rng.choice([1, 2]),
+                      "order": rng.choice([1, 2, 3]), "param": rng.random() < 0.3, "form": rng.randrange(4),
+                      "a": ocpgen.rnd(rng, -1, 1), "b": ocpgen.rnd(rng, 0.3, 2), "c": ocpgen.rnd(rng, -1.5, 1.5),
+                      "grid": ocpgen.gen_grid(rng, ["uniform", "geometric", "function"], 3),
+                      "t0": ocpgen.rnd(rng, -1, 1), "T": ocpgen.rnd(rng, 0.5, 3), "seed": rng.getrandbits(32)})
     return cases
+
+
+def s_expr(form, x, w, t, c, ca):
+    if form == 0:
+        return ca.sin(x) * w + c * x * t
+    if form == 1:
+        return w ** 2 + c * x
+    if form == 2:
+        return ca.vertcat(x * w, ca.cos(w) + t * c)
+    return (x + c * w) ** 2 * ca.tanh(t)
+
+
+def run_S(case):
+    """chain rule through B-spline signals: der(e(x, w, t)) = e_x f + e_w der(w) + e_t, sampled on the control grid"""
+    import casadi as ca
+    import rockit
+    from ..gen import build
+    from ..obs import nlp
+    res = {"sig": "S|%s|N%dM%d|o%d|%s|f%d|%s" % (case["cls"], case["N"], case["M"], case["order"], "p" if case["param"] else "v",
+                                                 case["form"], C.grid_tag(case["grid"])),
+           "evals": 0, "violations": [], "counters": {"points": 0}}
+    rng = np.random.default_rng(case["seed"])
+    a, b, c = case["a"], case["b"], case["c"]
+    try:
+        ocp = rockit.Ocp(t0=case["t0"], T=case["T"])
+        x = ocp.state()
+        u = ocp.control()
+        if case["param"]:
+            w = ocp.parameter(grid="bspline", order=case["order"])
+            ocp.set_value(w, ca.DM(rng.standard_normal((1, case["N"] + case["order"]))))
+        else:
+            w = ocp.variable(grid="bspline", order=case["order"])
+        f = a * x + u + b * w
+        ocp.set_der(x, f)
+        e = s_expr(case["form"], x, w, ocp.t, c, ca)
+        de = C.call("der(e)", ocp.der, e)
+        dw = C.call("der(w)", ocp.der, w)
+        ocp.add_objective(ocp.sum(u ** 2 + ca.sumsqr(w) + ca.sumsqr(de)) + ocp.at_tf(x) ** 2)
+        if case["cls"] == "MS":
+            ocp.method(rockit.MultipleShooting(N=case["N"], M=case["M"], intg="rk", grid=build.make_grid(case["grid"])))
+        else:
+            ocp.method(rockit.DirectCollocation(N=case["N"], M=case["M"], degree=3, grid=build.make_grid(case["grid"])))
+        ocp.solver("ipopt", {"ipopt.print_level": 0, "print_time": False})
+        view = C.call("transcribe", nlp.NlpView, ocp)
+        outs = [C.call("sample", ocp.sample, q, grid="control")[1] for q in (x, u, w, dw, ocp.t, de)]
+        F = ca.Function("s", [view.x, view.p], [ca.MX(o) for o in outs])
+    except C.RockitRaised as ex:
+        res["violations"].append(C.exc_violation(ID, ex, "S|" + case["cls"]))
+        return res
+    # independent derivative: casadi AD on our own symbols
+    xs, us, ws, dws, ts = [ca.MX.sym(n) for n in ("x", "u", "w", "dw", "t")]
+    es = s_expr(case["form"], xs, ws, ts, c, ca)
+    fs = a * xs + us + b * ws
+    ref = ca.jacobian(es, xs) @ fs + ca.jacobian(es, ws) @ dws + ca.jacobian(es, ts)
+    R = ca.Function("r", [xs, us, ws, dws, ts], [ref])
+    for it in range(3):
+        wv = view.random_point(rng, 1.0)
+        X, U, W, DW, Tt, DE = [np.array(v, dtype=float) for v in F(wv, view.p0)]
+        X, U, W, DW, Tt = [v.reshape(-1) for v in (X, U, W, DW, Tt)]
+        DE = DE.reshape(-1, len(Tt)) if DE.ndim > 1 or DE.size != len(Tt) else DE.reshape(1, -1)
+        for k in range(len(Tt)):
+            if case["order"] == 1 and 0 < k < len(Tt) - 1:
+                continue       # der(w) of a degree-1 spline is discontinuous at interior knots
+            want = np.array(R(X[k], U[k], W[k], DW[k], Tt[k])).reshape(-1)
+            got = DE[:, k]
+            res["evals"] += 1
+            res["counters"]["points"] += 1
+            if not C.finite(want, got):
+                continue
+            if np.max(np.abs(want - got)) > 1e-9 * (1 + np.max(np.abs(want))):
+                res["violations"].append({
+                    "kind": "der-chain-rule-signal", "mech": "C16|S|der-with-bspline-signal",
+                    "detail": "form %d, %s bspline order %d under %s: der(e) sampled at node %d is %s, e_x f + e_w der(w) + "
+                              "e_t = %s" % (case["form"], "parametric" if case["param"] else "variable", case["order"],
+                                            case["cls"], k, C.short(got), C.short(want))})
+                return res
+    res["nontrivial"] = res["counters"]["points"] > 0
+    res["sample"] = {"cls": case["cls"], "order": case["order"], "form": case["form"], "N": case["N"]}
+    return res
 
 
 class FreeEnv:
@@ -256,4 +342,4 @@ def run_B(case):
 
 
 def run_case(case):
-    return run_A(case) if case["kind"] == "A" else run_B(case)
+    return {"A": run_A, "B": run_B, "S": run_S}[case["kind"]](case)
